@@ -89,7 +89,27 @@ static std::string match(const std::string& in, const char* out, size_t n) {
 
 // place: 0 = heap block of exact size (ASan redzones), 1 = ends on the last byte before a PROT_NONE page,
 // 2 = inside the arena with `slack` bytes after it, 3 = starts on the first byte after a PROT_NONE page
+typedef char* (*QuoteFn)(const char*, size_t, char*);
+struct Kernel { const char* name; QuoteFn fn; };
+static char* q_dispatch(const char* s, size_t n, char* d) { return internal::Quote(s, n, d); }
+#ifdef SONIC_DYNAMIC_DISPATCH
+// the runtime-dispatch build carries both kernels; the resolver picks one per host, so the other one would never run here:
+// both are also called directly (what a host without / with AVX2 would execute)
+__attribute__((target(SONIC_WESTMERE))) static char* q_sse(const char* s, size_t n, char* d) { return internal::sse::Quote(s, n, d); }
+__attribute__((target(SONIC_HASWELL))) static char* q_avx2(const char* s, size_t n, char* d) { return internal::avx2::Quote(s, n, d); }
+static const Kernel kKernels[] = {{"dispatch", q_dispatch}, {"sse-clone", q_sse}, {"avx2-clone", q_avx2}};
+#else
+static const Kernel kKernels[] = {{"static", q_dispatch}};
+#endif
+static std::string judge1(const Kernel& K, const std::string& in, int place, size_t slack, Case& c);
 static std::string judge(const std::string& in, int place, size_t slack, Case& c) {
+  for (auto& K : kKernels) {
+    std::string m = judge1(K, in, place, slack, c);
+    if (!m.empty()) return std::string("[") + K.name + "] " + m;
+  }
+  return "";
+}
+static std::string judge1(const Kernel& K, const std::string& in, int place, size_t slack, Case& c) {
   size_t len = in.size();
   size_t cap = 6 * len + 32 + 3;  // what serialize.h reserves before quoting
   if (cap > g_dst->capacity() || len + slack > g_src->capacity()) return "";
@@ -112,7 +132,7 @@ static std::string judge(const std::string& in, int place, size_t slack, Case& c
     memset(p + len, 'A', slack);
     src = p;
   }
-  char* e = internal::Quote(src, len, dst);
+  char* e = K.fn(src, len, dst);
   size_t n = (size_t)(e - dst);
   if (e < dst || n > cap) return "Quote returned a pointer outside the destination buffer";
   std::string m = match(in, dst, n);
@@ -124,7 +144,7 @@ static std::string judge(const std::string& in, int place, size_t slack, Case& c
     size_t room = place == 3 ? std::min<size_t>(slack, g_src->capacity() - len) : slack;
     for (size_t i = 0; i < room; i++) after[i] = (i % 3 == 0) ? '"' : (i % 3 == 1) ? '\\' : '\x01';
     memset(dst, 0x7e, cap);
-    char* e2 = internal::Quote(src, len, dst);
+    char* e2 = K.fn(src, len, dst);
     c.subevals++;
     if ((size_t)(e2 - dst) != n || memcmp(dst, first.data(), n) != 0) return "output depends on the bytes after the string";
   }
